@@ -10,6 +10,7 @@
 #include "a/trajtrap.h"
 #include "a/trajbell.h"
 #include "num.h"
+#include "watchdog.h"
 
 static long n_events, n_dups, n_planned[2], n_zero[2], branch[8];
 static FILE *fo[64];
@@ -107,6 +108,7 @@ int main(int argc, char **argv)
         if (is_dup(line)) { ++n_dups; continue; }
         int n = parse_ints(line, v, 32);
         if (n != 8) { fprintf(stderr, "bad line\n"); return 3; }
+        wd_arm(20, line); /* the bell-shaped planner searches in a loop: a request that never comes back is a finding, not a wait */
         FILE *f = out();
         if (trap)
         {
@@ -192,6 +194,7 @@ int main(int argc, char **argv)
             for (int which = 0; which < 2; ++which)
             {
                 double const *r = far[k];
+                wd_arm(20, which == 0 ? "trapfar" : "bellfar");
                 a_trajtrap c; a_trajbell b;
                 memset(&c, 0, sizeof(c)); memset(&b, 0, sizeof(b));
                 double t = which == 0 ? (double)a_trajtrap_gen(&c, (a_real)r[0], (a_real)r[1], (a_real)r[2], (a_real)r[3], (a_real)r[4], (a_real)r[5], (a_real)r[6])
